@@ -164,6 +164,9 @@ fn op_tcp(cuts: &str, stream: &[u8]) -> String {
 }
 
 pub fn run(args: &[&str]) -> String {
+    if args[0] == "hand" {
+        return crate::hand::run(args);
+    }
     match args[0] {
         "pf" => op_pf(&unhex(args[1])),
         "st" => op_st(args[1], &unhex(args[2])),
@@ -301,6 +304,10 @@ pub fn gen(r: &mut Rng, n: usize) -> Vec<String> {
                 }
             }
             _ => out.push(format!("tcp {} {}", random_cuts(r, s.len()), hex(&s))),
+        }
+        // level 3: the connection task itself on a stream that the decoder rejects / that ends
+        if out.len() % 12 == 0 {
+            out.push(crate::hand::gen_script(r, "C10"));
         }
     }
     out.truncate(n);
